@@ -40,7 +40,9 @@ fn strategy(max_m: usize, max_n: usize, work: u64) -> impl Strategy<Value = Case
         let (only_a, both) = if only_a + both == 0 { (1, both) } else { (only_a, both) };
         let only_b = if only_b + both == 0 { 1 } else { only_b };
         let per_trial = ((only_a + only_b + 2 * both) as u64) * 4 + 2 * (m as u64);
-        let trials = (work / per_trial.max(1)).clamp(1_000, 400_000);
+        // at least 1000 trials, fewer (not below 250) only where 1000 trials would cost more than ten times the budget of a case
+        let min_trials = if 1_000 * per_trial > 10 * work { (10 * work / per_trial.max(1)).clamp(250, 1_000) } else { 1_000 };
+        let trials = (work / per_trial.max(1)).clamp(min_trials, 400_000);
         Case { kind, m, only_a, only_b, both, trials, seed }
     })
 }
